@@ -42,6 +42,8 @@ def run(prog, chk):
     from . import c01
     chk.guard(c01.r012, prog, chk, "R13.9")
     chk.guard(r1310, prog, chk)
+    from .c09 import check_location_memo_complete
+    chk.guard(check_location_memo_complete, prog, chk, "R13.11")
 
 
 # ----------------------------------------------------------------------------- R13.1
@@ -239,6 +241,13 @@ def r135(prog, chk, rule):
     rec = [c for c in calls_named(col, "locationsFromComponentGlyphs")]
     need(direct and rec, f"cannot interpret {col.short}: direct / recursive location collection not found")
     rec_nodes = {cfg.node_of(c) for c in rec}
+    # reading the per-run memo counts as the recursion's answer (that the memo holds nothing less is R09.14 = R13.11)
+    for sub in ast.walk(col.node):
+        if isinstance(sub, ast.Subscript) and isinstance(sub.ctx, ast.Load) and rec and rec[0].args and T(sub.slice) == T(rec[0].args[0]) \
+                and every_origin(prog, col, sub.value, lambda x, ff: isinstance(x, ast.Attribute) and x.attr == "componentLocations", allow_const=False)[0]:
+            nd = cfg.node_of(sub)
+            if nd is not None:
+                rec_nodes.add(nd)
     for dcall in direct:
         n += 1
         dn = cfg.node_of(dcall)
